@@ -71,7 +71,7 @@ def gen_cases(tier, seed):
     reps = 1 if tier == "quick" else 6
     for name, (spec, args) in sorted(trees.items()):
         for driver in ("parfile", "parblock"):
-            for w in ([1, 4, 64] if tier == "quick" else [1, 2, 3, 7, 16, 64]):
+            for w in ([1, 4, 64, 0] if tier == "quick" else [1, 2, 3, 7, 16, 64, 0, 200]):
                 for si, sch in enumerate(SCHEDS):
                     if tier == "quick" and (si + w) % 3 and name not in ("gitignore-fifo",):
                         continue
